@@ -1,7 +1,8 @@
 (* Props/C04.v — entry reads and writes behave like an F-ordered mutable array over any history.
    Only statements, `exact`, Print Assumptions (+ concrete non-vacuity examples). Definitions: Model/C04Model.v. *)
 From Coq Require Import List Arith Bool ZArith.
-From PV Require Import Base.Index Np.Array Model.Sparse Model.C04Model Proofs.C04Dense Proofs.C04Sparse Proofs.C04History Proofs.C04Admissible Proofs.C04RegionGet.
+From PV Require Import Base.Index Np.Array Model.Sparse Model.C04Model Proofs.C04Dense Proofs.C04Sparse Proofs.C04History Proofs.C04Admissible Proofs.C04RegionGet Proofs.C04Region
+  Model.Harness Model.C04Harness Model.C04Extra Proofs.C04NpAdv.
 Import ListNotations.
 
 Section C04.
@@ -92,7 +93,62 @@ Theorem C04_sparse_region_read : forall (S R : sparse V) es ls,
   (forall p, In p (cartF (map snd ls)) -> exists j, renumber ls p = Some j) /\
   (forall p j, renumber ls p = Some j -> den_sp v0 R j = den_sp v0 S p).
 Proof. exact (sp_region_get_den v0). Qed.
+(* ---- wave 2 ---- *)
+(* the sptensor returned by a region read is itself well-formed (in bounds of the kept shape, no duplicate subscript, no stored
+   zero, |subs| = |vals|), whatever the stored order of the source, and stores exactly the source entries inside the region *)
+Theorem C04_sparse_region_read_wf : forall (S R : sparse V) es,
+  wf_sp isz S -> sp_region_get S es = Some R -> wf_sp isz R.
+Proof. exact (sp_region_get_wf isz). Qed.
+
+Theorem C04_sparse_region_read_nnz : forall (S R : sparse V) es ls,
+  region_lists (sshape S) es = Some ls -> sp_region_get S es = Some R ->
+  length (ssubs R) = length (filter (fun e : idx * V => match renumber ls (fst e) with Some _ => true | None => false end) (entries S)).
+Proof. exact sp_region_get_nnz. Qed.
+
+(* the decidable side conditions of the sparse model (positions pairwise distinct, padded old subscripts inside the grown shape)
+   never fail for REGION writes either: whenever the specification accepts S[region] = rhs (scalar, zero or exactly shaped
+   tensor; growth of extent and order; index lists without a repeated index), so does the sparse model *)
+Theorem C04_sparse_region_admissible : forall (S : sparse V) es (r : rhs V) s' asg,
+  wf_sp isz S -> Forall elem_nodup es ->
+  resolve_set cartF (sshape S) (KRegion es) r = Some (s', asg) ->
+  exists S', step_sparse v0 isz S (OSet (KRegion es) r) = Some (S', ([], [])).
+Proof. exact (sparse_region_admissible v0 isz). Qed.
+
+(* hence the TOTAL form of the sparse refinement: on every operation sptensor offers (all reads; subscript-array writes;
+   region writes) the specification and the sparse model accept together, with equal outputs, the new state denotes the new
+   abstract array and is well-formed — no dynamic side check is left *)
+Theorem C04_refine_sparse_total : forall (S : sparse V) (o : op V) a' out,
+  wf_sp isz S -> sparse_op_ok o -> spec_step v0 (abs_sp v0 S) o = Some (a', out) ->
+  exists S', step_sparse v0 isz S o = Some (S', out) /\ eq_amap (abs_sp v0 S') a' /\ wf_sp isz S'.
+Proof. exact (refine_sparse_total v0 isz isz_spec). Qed.
+
+Theorem C04_history_sparse_total : forall ops (S : sparse V) a a' outs,
+  wf_sp isz S -> eq_amap (abs_sp v0 S) a -> Forall sparse_op_ok ops ->
+  run (spec_step v0) a ops = Some (a', outs) ->
+  exists S', run (step_sparse v0 isz) S ops = Some (S', outs) /\ eq_amap (abs_sp v0 S') a' /\ wf_sp isz S'.
+Proof. exact (run_sparse_total v0 isz isz_spec). Qed.
+
+(* numpy advanced indexing (what the dense class does with a key that contains index lists, Model/C04Extra.v): for every
+   shape and key, every position it selects lies inside the outer-product region the property speaks about *)
+Theorem C04_np_adv_in_region : forall s es os ps ls,
+  np_adv_positions s es = Some (os, ps) -> region_lists s es = Some ls ->
+  Forall (fun p => In p (cartF (map snd ls))) ps.
+Proof. exact np_adv_positions_in_region. Qed.
 End C04.
+
+(* slices never address a position twice (Python slice semantics, any bounds and any non-zero step) *)
+Theorem C04_slice_positions_distinct : forall len a b c, NoDup (py_slice len a b c).
+Proof. exact py_slice_nodup. Qed.
+
+(* KNOWN FINDING A-16, as a theorem about the two models: a dense tensor following numpy's advanced indexing and a well-formed
+   sparse tensor that denote the same array return different reads and end in different arrays after the same scalar write *)
+Theorem C04_a16_dense_sparse_disagree :
+  exists (T : dense Z) (S : sparse Z) (es : list kelem),
+    wf_spb zisz S = true /\ full 0%Z S = T /\
+    np_adv_get 0%Z T es <> option_map snd (step_sparse 0%Z zisz S (OGet (KRegion es))) /\
+    (forall T' S', np_adv_set_scalar 0%Z T es 9%Z = Some T' ->
+                   step_sparse 0%Z zisz S (OSet (KRegion es) (RScalar 9%Z)) = Some (S', ([], [])) -> full 0%Z S' <> T').
+Proof. exact a16_dense_sparse_disagree. Qed.
 
 Print Assumptions C04_spec_last_write_wins.
 Print Assumptions C04_spec_other_unchanged.
@@ -106,6 +162,14 @@ Print Assumptions C04_history_fold_sparse.
 Print Assumptions C04_dense_sparse_equal.
 Print Assumptions C04_sparse_subs_admissible.
 Print Assumptions C04_sparse_region_read.
+Print Assumptions C04_sparse_region_read_wf.
+Print Assumptions C04_sparse_region_read_nnz.
+Print Assumptions C04_sparse_region_admissible.
+Print Assumptions C04_refine_sparse_total.
+Print Assumptions C04_history_sparse_total.
+Print Assumptions C04_np_adv_in_region.
+Print Assumptions C04_slice_positions_distinct.
+Print Assumptions C04_a16_dense_sparse_disagree.
 
 (* non-vacuity: a concrete history on a 2x3 tensor whose sparse form is stored out of order — write by subscripts with a
    duplicate and a zero (deletes [0,0]), grow by a full subscript, write a stepped region, read linearly and by region *)
@@ -133,3 +197,16 @@ Proof. vm_compute. reflexivity. Qed.
 
 Example C04_example_wf : wf_spb (Z.eqb 0) ex_S = true /\ full 0 ex_S = ex_T.
 Proof. split; reflexivity. Qed.
+
+(* wave 2 non-vacuity: a region write that grows extent AND order through a stepped slice, an index list and a new mode is
+   accepted by the sparse model from the out-of-order state; the region read returns a well-formed sptensor *)
+Example C04_example_region_total :
+  sparse_op_ok (OSet (KRegion [KSlice None (Some 3) (Some 2); KList [2; 0]; KInt 1]) (RValues [5; 0; 6; 7])) /\
+  option_map fst (step_sparse 0 (Z.eqb 0) ex_S (OSet (KRegion [KSlice None (Some 3) (Some 2); KList [2; 0]; KInt 1]) (RValues [5; 0; 6; 7]))) =
+  Some (mkSp [3; 3; 2]%nat [[1; 1; 0]; [0; 0; 0]; [0; 2; 0]; [0; 2; 1]; [0; 0; 1]; [2; 0; 1]]%nat [1; 2; 3; 5; 6; 7]).
+Proof. split; [exact ex_region_key_nodup|vm_compute; reflexivity]. Qed.
+
+Example C04_example_region_read_wf :
+  option_map (wf_spb (Z.eqb 0)) (sp_region_get ex_S [KSlice None None (Some (-1)); KList [2; 0]]) = Some true /\
+  sp_region_get ex_S [KSlice None None (Some (-1)); KList [2; 0]] = Some (mkSp [2; 2]%nat [[1; 1]; [1; 0]]%nat [2; 3]).
+Proof. split; vm_compute; reflexivity. Qed.
